@@ -24,6 +24,7 @@ RULE = (
     ' Directed: a nested chain next to 2-4 siblings queued on the limiter, k = 1..3, 12 (quick) / 60 (thorough) burst schedules each: a release, a woken waiter and a new arrival in one loop turn.'
     ' Directed: runner.map in raise mode with several failing items, each with its own error, k = 1..4, later failures finishing first: same end as the unlimited call.'
     ' Directed: sibling nested graphs with async interrupt handlers (k = 1..3); a sweep over small body delays under the NATURAL asyncio schedule (nested chain next to three siblings, 128 delay assignments x k = 1..3) with an in-body counter.'
+    ' One AsyncRunner used for bounded, contended calls from successive event loops.'
 )
 ASSUMPTIONS = [
     "the bound is on function-node bodies and asynchronous interrupt-handler bodies; gate functions and synchronous handlers are instantaneous decisions that cannot overlap anything",
@@ -458,6 +459,32 @@ def natural_schedule_sweep(ctx):
                 ctx.violation("C15:bound-exceeded", f"k={k}, delays {c2['delays']} (natural schedule): {state['peak']} bodies open at the same instant", c2)
             elif base is not None and res.values != base.values:
                 ctx.violation("C15:result-differs", f"k={k}, delays {c2['delays']}: values differ from the unlimited call", c2)
+    # one AsyncRunner used for several bounded, contended calls from successive event loops (run and map): each ends like
+    # the unlimited call
+    g = build(2, 2, 3, 3, 3)
+    base = asyncio.run(run_one(g, None))
+    for k in (1, 2):
+        shared = AsyncRunner()
+
+        async def again(form, k=k, shared=shared):
+            if form == "run":
+                return (await shared.run(g, {"x": 1}, max_concurrency=k)).values
+            return (await shared.map(g, {"x": [1, 1]}, map_over="x", max_concurrency=k))[0].values
+
+        for rep, form in enumerate(("run", "map", "run", "map")):
+            state["open"], state["peak"] = 0, 0
+            ctx.obs["limited_runs"] += 1
+            ctx.obs["same_runner_successive_loops"] += 1
+            c2 = {"program": "one AsyncRunner, bounded calls from successive event loops", "k": k, "call": rep, "form": form}
+            try:
+                vals = asyncio.run(again(form))
+            except Exception as e:  # noqa: BLE001
+                ctx.violation("C15:result-differs", f"k={k}: call {rep + 1} ({form}) on a runner that already made bounded calls in other event loops raised {e!r}; the unlimited call completes", c2)
+                break
+            if state["peak"] > k:
+                ctx.violation("C15:bound-exceeded", f"k={k}: call {rep + 1} ({form}): {state['peak']} bodies at once", c2)
+            elif base is not None and vals != base.values:
+                ctx.violation("C15:result-differs", f"k={k}: call {rep + 1} ({form}) gave {vals}", c2)
     ctx.case({"directed": "natural-schedule-sweep"}, True)
 
 
